@@ -168,6 +168,18 @@ def run_case(case, acc):
     if _cubic_glyf(font):
         acc.exclude("experimental-cubic-glyf")
         return
+    n_glyphs = len(order0)
+    raw_cmap = [t for t in font["cmap"].tables if not hasattr(t, "cmap") or t.__class__.__name__ == "cmap_format_unknown"]
+    if raw_cmap:
+        # open finding C17-undecoded-cmap-subtable-keeps-glyph-ids (witness in findings/): excluded by construction
+        acc.exclude("cmap subtable of a format the library keeps as raw data (8, 10): its glyph IDs cannot follow a reordering")
+        if case["mode"] == "reorder":
+            return
+    oset = set(order0)
+    _hbx = HBFont(data0)
+    if any(n not in oset for t in font["cmap"].tables if hasattr(t, "cmap") for n in t.cmap.values()) or any((_hbx.nominal(cp) or 0) >= n_glyphs for cp in _hbx.unicodes()):
+        acc.exclude("malformed corpus font: cmap maps to glyph IDs beyond numGlyphs")
+        return
     if "VARC" in font and case["mode"] == "scale":
         # draft format; fontTools and HarfBuzz already disagree on these composites (see C05), no oracle for scaling them
         acc.exclude("varc-scale-not-covered")
@@ -241,10 +253,16 @@ def run_case(case, acc):
                     tol = 0.5 * (3 * nseg + 2)
                 else:
                     depth, transformed = _comp_depth(ref, name)
-                    tol = 0.5 * (1 + depth) + (1.0 if transformed else 0.0)
+                    tol = max(0.5 * (1 + depth) + (1.0 if transformed else 0.0), _comp_budget(ref, name))
+                    if depth:
+                        # a shaper places the outline by the difference between the glyph's xMin and its hmtx side bearing:
+                        # the side bearing is scaled and rounded on its own (0.5), the xMin of a composite follows from its
+                        # rounded components (the composite's own budget), so the whole outline may shift by their sum
+                        tol = 2 * tol + 0.5
                 if loc is not None and "gvar" in ref:
                     tol += 0.5 * len(ref["gvar"].variations.get(name, []))
-                    adv_tol += 0.5 * len(ref["gvar"].variations.get(name, []))
+                    # the advance is the difference of two phantom points, each with its own rounded delta per tuple
+                    adv_tol += 1.0 * len(ref["gvar"].variations.get(name, []))
                 if loc is not None:
                     # HarfBuzz reports the ORIGINAL's interpolated advance rounded to an integer as well: that rounding is
                     # multiplied by k before it is compared
@@ -400,6 +418,25 @@ def _comp_depth(font, name, seen=0):
         d = max(d, cd + 1)
         tr = tr or ctr or hasattr(c, "transform")
     return d, tr
+
+
+def _comp_budget(font, name, seen=0):
+    """Rounding budget of a point of a (composite) glyph after scaling: a simple glyph's point is rounded once (0.5); a
+    component contributes its own budget multiplied by the largest absolute row sum of its 2x2 transform (the rounding
+    error of the base glyph's point goes through the transform) plus 0.5 for its rounded offset (times that norm again
+    when the offset itself is scaled: SCALED_COMPONENT_OFFSET)."""
+    g = font["glyf"][name]
+    if not g.isComposite() or seen > 8:
+        return 0.5
+    worst = 0.0
+    for c in g.components:
+        norm = 1.0
+        if hasattr(c, "transform"):
+            (a, b), (cc, d) = c.transform
+            norm = max(abs(a) + abs(cc), abs(b) + abs(d), abs(a) + abs(b), abs(cc) + abs(d), 1.0)
+        off = 0.5 * (norm if (c.flags & 0x0800) else 1.0)
+        worst = max(worst, _comp_budget(font, c.glyphName, seen + 1) * norm + off)
+    return worst
 
 
 def jobs(tier, seed):
